@@ -111,12 +111,13 @@ def run_case(run, drv, case_seed, tier):
     single = rng.random() < 0.2
     kind = rng.choice({1: ["v1"], 2: ["a2", "v2"], 3: ["a3", "hy"]}[version])
     files = metas.small_tree(rng, pl, single)
-    if not single and rng.random() < 0.4:
+    if not single and rng.random() < 0.5:
         # siblings whose names differ only in case / sort differently under other keys
         from harness.common import Blob
         base = rng.choice(["", "d/", "D/d/"])
-        for nm in rng.sample(["README.txt", "Readme.txt", "readme.txt", "Data", "data", "lib.bin",
-                              "lib/x", "LIB/y", "a-b", "a/b", "a.b"], rng.randrange(2, 5)):
+        pair = rng.choice([["README.txt", "Readme.txt", "readme.txt"], ["Data/x", "data/y"],
+                           ["LIB/y", "lib/x", "Lib/z"]])
+        for nm in pair + rng.sample(["lib.bin", "a-b", "a/b", "a.b"], rng.randrange(0, 3)):
             rel = base + nm
             if not any(r == rel or r.startswith(rel + "/") or rel.startswith(r + "/") for r, _ in files):
                 files.append((rel, Blob.rand(rng.randrange(1, 30), rng.choice([3, 20000, 16384]))))
